@@ -25,10 +25,13 @@ static ALLOC: Counting = Counting;
 
 /// C10 "never unbounded growth": feed `unit` repeated `n` times in writes of 800 units under limit `m`; returns (error, heap bytes the
 /// rewriter retains after the last successful write)
-fn growth(unit: &str, n: usize, m: usize, with_selector: bool) -> (Option<String>, isize) {
+fn growth(unit: &str, n: usize, m: usize, with_selector: bool) -> (Option<String>, isize) { growth_tail(unit, n, "", m, with_selector) }
+/// same, followed by `tail` written in 64 KiB pieces (an unterminated construct that has to be buffered when a comment handler is on)
+fn growth_tail(unit: &str, n: usize, tail: &str, m: usize, with_selector: bool) -> (Option<String>, isize) {
     let doc = unit.repeat(n);
     let mut settings = Settings::new();
     if with_selector { settings = settings.append_element_content_handler(element!("zzz > qq", |_el| Ok(()))); }
+    if !tail.is_empty() { settings = settings.append_document_content_handler(doc_comments!(|_c| Ok(()))); }
     settings = settings.with_memory_settings(MemorySettings::new().with_preallocated_parsing_buffer_size(0).with_max_allowed_memory_usage(m));
     let before = LIVE.load(std::sync::atomic::Ordering::Relaxed);
     let mut rw = HtmlRewriter::new(settings, |_: &[u8]| {});
@@ -36,6 +39,7 @@ fn growth(unit: &str, n: usize, m: usize, with_selector: bool) -> (Option<String
     for c in doc.as_bytes().chunks(unit.len() * 800) {
         if let Err(e) = rw.write(c) { err = Some(format!("{e}")); break; }
     }
+    if err.is_none() { for c in tail.as_bytes().chunks(65536) { if let Err(e) = rw.write(c) { err = Some(format!("{e}")); break; } } }
     let after = LIVE.load(std::sync::atomic::Ordering::Relaxed);
     if err.is_none() { let _ = rw.end(); }
     (err, after - before)
@@ -455,6 +459,21 @@ fn main() {
             if err.is_none() && g > 1024 + 65536 {
                 let v = format!("{{\"what\":\"rewriter retains heap proportional to the input under a memory limit without reporting MemoryLimitExceeded\",\"input\":\"{} x 200000, writes of 800 units\",\"detail\":\"max_allowed_memory_usage=1024, selector registered: {}, retained heap after the last write: {} bytes\"}}", unit, sel, g);
                 if (unit == "<svg>" || unit == "<math>") && !sel { ns_stack.push(v); } else { rep.violations.push(v); }
+            }
+        }
+        // one limit for everything the rewriter accounts for: an open-element stack of ~3/4 M plus a buffered comment of ~3/4 M must fail
+        {
+            let m = 4 << 20;
+            let (e0, g0) = growth("<div>", 1000, usize::MAX / 2, true);
+            let per_item = (g0.max(1) as usize) / 1000;   // measured heap per open element (incl. amortised growth)
+            if e0.is_none() && per_item > 0 {
+                let n = (3 * m / 4) / per_item.max(1);
+                let tail = format!("<!--{}", "x".repeat(3 * m / 4));
+                let (err, g) = growth_tail("<div>", n, &tail, m, true);
+                rep.cases += 1;
+                if err.is_none() && g > (m + 65536) as isize {
+                    rep.violations.push(format!("{{\"what\":\"open-element stack and parsing buffer together exceed the memory limit without MemoryLimitExceeded\",\"input\":\"<div> x {} then an unterminated comment of {} bytes, selector `zzz > qq` and a comment handler registered\",\"detail\":\"max_allowed_memory_usage={}, retained heap {} bytes\"}}", n, 3 * m / 4, m, g));
+                }
             }
         }
         KNOWN_NS_STACK.with(|k| *k.borrow_mut() = ns_stack);
